@@ -30,7 +30,35 @@ CONFIG = {
 IGNORABLE = {"*.bak": "x.bak", "cache/": "cache/c1", "notes": "notes", "tmp*": "tmp_1"}
 
 
+def generate_early_removal(rng):
+    """the outer history records a folder's files; one of them disappears; only then does the folder get a history of
+    its own (which therefore never records that file); the outer root is judged: the file is still missing"""
+    env = gen.gen_env(rng)
+    tree = gen.gen_tree(rng, max_entries=5, max_depth=2, hostile=0.1, min_files=1)
+    sub = rng.choice(["clips", "N", "x y"])
+    tree[sub] = {"t": "d"}
+    names = rng.sample(["a.mov", "b.mov", "c.wav", "deep/d.bin"], rng.randint(2, 3))
+    for n in names:
+        if "/" in n:
+            tree[sub + "/deep"] = {"t": "d"}
+        tree[sub + "/" + n] = {"t": "f", "c": gen.unique_content(rng)}
+    env["tree"] = tree
+    fm = gen.fmt_args(gen.pick_formats(rng, 1, 2))
+    gone = sub + "/" + rng.choice(names)
+    keep = [sub + "/" + n for n in names if sub + "/" + n != gone]
+    ops = [scen.cmd("create", "@R", *fm), scen.gen_advance(rng), {"op": "remove", "path": gone, "fault": "remove_file"}]
+    # (the new history is started in folder mode, so every file still there is recorded by it: after a partial start with
+    # -sf the remaining files are known to the outer history only and the nested one reports them as new)
+    ops.append(scen.cmd("create", "@R/" + sub, *fm))
+    ops.append(scen.gen_advance(rng))
+    if rng.random() < 0.4:
+        ops += [scen.cmd("create", "@R", *fm), scen.gen_advance(rng)]  # (exits 10: the file is missing)
+    return {"world": env, "ops": ops, "mutations": [], "judge": {"v": rng.random() < 0.3, "i": []}, "early_removal": True}
+
+
 def generate(rng, tier):
+    if rng.random() < 0.05:
+        return generate_early_removal(rng)
     env = gen.gen_env(rng)
     tree = gen.gen_tree(rng, max_entries=9, max_depth=3, hostile=0.2, min_files=1)
     pats = []
@@ -161,7 +189,7 @@ def execute(sc, ctx):
     w = core.World(sc["world"], ctx.subdir("main"))
     results = scen.run_ops(w, sc["ops"], ctx)
     ctx.absorb_world(w)
-    if not scen.setup_ok(results, allowed=(0,)):
+    if not scen.setup_ok(results, allowed=(0, 10) if sc.get("early_removal") else (0,)):
         ctx.probe("setup_failed_na")
         return
     hv = observe.HistoryView(w.root)
@@ -184,6 +212,15 @@ def execute(sc, ctx):
     cur_files, cur_dirs = observe.walk_nonignored(w.root, ig)
     content = sorted(f for f in sealed_files if f in cur_files and observe.read_bytes(f) != sealed_bytes[f])
     removed_f = sorted(set(sealed_files) - set(cur_files))
+    if sc.get("early_removal"):
+        # files that some generation of some history recorded and that were already gone when the tree was last sealed
+        ever = set()
+        for hroot in observe.find_histories(w.root):
+            hvx = observe.HistoryView(hroot)
+            if not hvx.error:
+                ever |= {os.path.normpath(os.path.join(hroot, p_)) for p_ in hvx.file_records()}
+        removed_f = sorted(set(removed_f) | {p_ for p_ in ever if p_ not in cur_files and not ig(p_)})
+        ctx.probe("recorded_file_gone_before_the_last_seal")
     removed_d = sorted(set(sealed_dirs) - set(cur_dirs) - set(cur_files))  # a directory replaced by a file counts as 'added'
     if set(sealed_dirs) & set(cur_files):
         ctx.probe("directory_replaced_by_file")
